@@ -641,9 +641,10 @@ def appRun (N : NumOps) (persist : Bool) (sink : FileSink) (queues : List (List 
   | none => none
   | some (sink₁, errors') =>
     let final := (Run.init sink₁ queues).exec N persist schedule
-    -- `run_batch_with_responses` propagates a failed write (`?`): the whole run is an error;
-    -- `run_batch_without_responses` folds over `let _ = …` and drops it: the run succeeds
-    if persist && final.failed > 0 then none
+    -- a failed write fails the whole run under both policies: `run_batch_with_responses` propagates it
+    -- with `?`, and since /repo 80a5c9a `run_batch_without_responses` does too (`try_for_each`; its
+    -- fold used to drop the error, so under the discard policy the run succeeded with nothing written)
+    if final.failed > 0 then none
     else some (final.sink, final.returned.flatten ++ errors')
 
 end Sink
